@@ -525,3 +525,168 @@ func ruleHeapSeed(r *rep.Report, p *load.Program, msm *ssa.Function) {
 }
 
 type typesType = types.Type
+
+// rangeLimbs makes a limb array with the given per-limb upper bounds (lower bound 0).
+func rangeLimbs(it *absint.Interp, name string, w int, hi []*big.Int) absint.PtrV {
+	o := &absint.Object{Name: name, Kind: "arr", W: w}
+	for i := range hi {
+		v := absint.Range(new(big.Int), hi[i], w, false)
+		v.Sym = absint.FreshSym(fmt.Sprintf("%s[%d]", name, i), w)
+		o.Vals = append(o.Vals, v)
+	}
+	it.St.Objs = append(it.St.Objs, o)
+	return absint.PtrV{Obj: len(it.St.Objs) - 1, Idx: -1}
+}
+
+func pow2m1(k int) *big.Int { return new(big.Int).Sub(new(big.Int).Lsh(big.NewInt(1), uint(k)), big.NewInt(1)) }
+
+func reportFindings(r *rep.Report, p *load.Program, rule, subject string, it *absint.Interp, allow func(f absint.Finding) (string, bool)) int {
+	cfg := p.Cfg.Name
+	n := 0
+	it.Finish()
+	for _, f := range it.Findings {
+		if why, ok := allow(f); ok {
+			r.Assume(why)
+			continue
+		}
+		n++
+		r.Fail(rule, cfg, subject, ssau.InstrPos(p, f.Instr), fmt.Sprintf("%s:%s:%s", rule, f.Kind, ssau.QName(f.Fn)), fmt.Sprintf("%s in %s [%s]: %s", f.Kind, ssau.QName(f.Fn), strings.Join(f.Stack, ">"), f.Msg))
+	}
+	if it.Err != nil {
+		n++
+		r.Fail(rule, cfg, subject, "", rule+":error:"+subject, "analysis did not complete: "+it.Err.Error())
+	}
+	return n
+}
+
+// deadValues lists integer values computed in fn (and executed) that nothing consumes and that may be non-zero.
+func deadValues(it *absint.Interp, fn *ssa.Function) []ssa.Value {
+	var out []ssa.Value
+	for _, b := range fn.Blocks {
+		for _, in := range b.Instrs {
+			v, ok := in.(ssa.Value)
+			if !ok || !it.InstrsSeen[in] {
+				continue
+			}
+			switch in.(type) {
+			case *ssa.Call, *ssa.Alloc, *ssa.Phi:
+				continue
+			}
+			av, have := it.ValOf[v]
+			if !have {
+				continue
+			}
+			used := false
+			if refs := v.Referrers(); refs != nil {
+				for _, u := range *refs {
+					if _, dbg := u.(*ssa.DebugRef); !dbg {
+						used = true
+					}
+				}
+			}
+			if !used && !(av.IsConst() && av.Lo.Sign() == 0) {
+				out = append(out, v)
+			}
+		}
+	}
+	return out
+}
+
+// ruleMagnitudes (R): no overflow, borrow, lossy narrowing, lost carry or dropped non-zero value under the magnitudes that reach the code.
+func ruleMagnitudes(r *rep.Report, p *load.Program, which string) {
+	if which == "modm" {
+		ruleMagnitudesModm(r, p)
+		return
+	}
+	ruleMagnitudesField(r, p)
+}
+
+func ruleMagnitudesModm(r *rep.Report, p *load.Program) {
+	cfg := p.Cfg.Name
+	bpl, n, w := modmLayout(p)
+	if n == 0 {
+		return
+	}
+	reduced := make([]*big.Int, n)
+	for i := range reduced {
+		reduced[i] = pow2m1(bpl)
+	}
+	reduced[n-1] = pow2m1(256 - bpl*(n-1))
+	noAllow := func(f absint.Finding) (string, bool) {
+		if f.Kind == "narrow" {
+			// narrowing conversions in the scalar package are bit-field extractions (checked bit by bit by the bit-origin rule)
+			return "", false
+		}
+		return "", false
+	}
+	_ = noAllow
+	type run struct {
+		name string
+		args func(it *absint.Interp) ([]absint.AnyVal, int)
+	}
+	runs := []run{
+		{"Add", func(it *absint.Interp) ([]absint.AnyVal, int) {
+			out, oid := outArr(it, "r", n, w, false)
+			return []absint.AnyVal{out, rangeLimbs(it, "x", w, reduced), rangeLimbs(it, "y", w, reduced)}, oid
+		}},
+		{"Mul", func(it *absint.Interp) ([]absint.AnyVal, int) {
+			out, oid := outArr(it, "r", n, w, false)
+			return []absint.AnyVal{out, rangeLimbs(it, "x", w, reduced), rangeLimbs(it, "y", w, reduced)}, oid
+		}},
+		{"Expand", func(it *absint.Interp) ([]absint.AnyVal, int) {
+			out, oid := outArr(it, "out", n, w, false)
+			return []absint.AnyVal{out, symBytes(it, "in", 64, func(int) absint.Bit { return absint.BTop })}, oid
+		}},
+		{"Expand", func(it *absint.Interp) ([]absint.AnyVal, int) {
+			out, oid := outArr(it, "out", n, w, false)
+			return []absint.AnyVal{out, symBytes(it, "in", 32, func(int) absint.Bit { return absint.BTop })}, oid
+		}},
+	}
+	for _, rn := range runs {
+		fn := ssau.Func(p, "internal/modm", rn.name)
+		if fn == nil {
+			continue
+		}
+		it := absint.NewInterp(absint.Hooks{Modular: modularFuncs})
+		args, oid := rn.args(it)
+		it.Call(fn, args, nil)
+		subj := fmt.Sprintf("modm.%s on reduced operands: no overflow, borrow, lost carry", rn.name)
+		r.Assume("scalar operands are reduced: limbs below 2^BitsPerLimb and the top limb below 2^(256-BitsPerLimb*(LimbSize-1)) (the top-limb bound of results is value-relational and not re-derived)")
+		bad := reportFindings(r, p, "R-magnitude", subj, it, func(f absint.Finding) (string, bool) {
+			if f.Kind == "narrow" {
+				return "", true // bit-field extraction; exactness of the packing is the bit-origin rule's business
+			}
+			return "", false
+		})
+		// closure: the result is again a reduced operand
+		okOut := true
+		var outs []string
+		for i, v := range it.St.Objs[oid].Vals {
+			outs = append(outs, fmt.Sprintf("2^%d", v.Hi.BitLen()))
+			if i < n-1 && v.Hi.Cmp(reduced[i]) > 0 {
+				okOut = false // the top limb's bound is relational (value < L) and not derivable by intervals: assumed
+			}
+		}
+		if bad == 0 {
+			r.Check(okOut, "R-magnitude", cfg, subj+"; result limbs stay within the reduced-operand bounds", ssau.Pos(p, fn.Pos()),
+				"result limb bounds "+strings.Join(outs, ","), "result limb bounds "+strings.Join(outs, ",")+" exceed the reduced-operand contract")
+		}
+		// dropped values
+		for _, name := range []string{"Mul", "Add", "barrettReduce", "reduce", "Expand"} {
+			g := ssau.Func(p, "internal/modm", name)
+			if g == nil {
+				continue
+			}
+			for _, dv := range deadValues(it, g) {
+				in := dv.(ssa.Instruction)
+				if name == "barrettReduce" {
+					r.Assume("barrettReduce computes r2 = q3*m only modulo b^(k+1) (2^264): the high half of its last partial-product accumulator is dropped on purpose (HAC 14.42)")
+					continue
+				}
+				r.Fail("R-dropped-value", cfg, "modm."+name+": no possibly non-zero intermediate value is computed and then dropped", ssau.InstrPos(p, in), "dropped:"+name+":"+dv.Name(),
+					fmt.Sprintf("%s in modm.%s is never used although it may be non-zero (up to 2^%d): a carry or high part is lost", dv.Name(), name, it.ValOf[dv].Hi.BitLen()))
+			}
+		}
+	}
+}
+
